@@ -52,7 +52,7 @@ class PoolWorld(World):
     STUB = ["threading.Event/Lock (simulated, baton scheduler)", "time (virtual clock)",
             "sockets + selector (in-memory)", "Worker.__hash__ (index based)", "jobs (scripted durations)"]
     PROBES = ["thread_start_failed", "commtimeout_none", "pool_resized_live", "wall_clock_stepped_back_during_close", "refused", "worker_retired", "worker_created", "close_with_running_jobs", "preempted",
-              "server_layer", "refused_on_wire", "worker_reused", "close_races_submission", "submit_after_close_refused", "stalled", "silent_client", "job_raised", "closed_during_housekeeper_round"]
+              "server_layer", "refused_on_wire", "worker_reused", "close_races_submission", "submit_after_close_refused", "stalled", "silent_client", "job_raised", "closed_during_housekeeper_round", "proxy_client", "proxy_client_refused"]
     RULE = ("plan = (layer, THREADPOOL_SIZE, THREADPOOL_SIZE_MIN, per job: duration and gap before the next "
             "submission, optional close time, pre-emption probabilities); distinct = distinct interleaving digest "
             "(sequence of thread switches, pre-emption sites and socket events); non-trivial = at least one "
@@ -121,6 +121,12 @@ class PoolWorld(World):
         if layer == "server" and rng.random() < 0.15:
             # a listener of the unix-domain kind: the address of an accepted connection is '' (no host, no port)
             plan["net"] = {"unix_addr": True}
+        if layer == "server" and rng.random() < 0.5:
+            # some of the clients are the library's own Proxy (with a serializer of their choice) instead of a bare socket that
+            # speaks marshal: what the refused CLIENT is told is what the application sees
+            for j in jobs:
+                if not j.get("silent") and rng.random() < 0.5:
+                    j["proxy"] = rng.choice(["serpent", "json", "msgpack", "marshal"])
         if layer == "pool" and rng.random() < 0.08:
             # the operating system refuses to start one of the worker threads the pool wants while it grows
             plan["start_fail"] = [mn + rng.randint(1, max(1, size - mn))]
@@ -417,8 +423,49 @@ class PoolWorld(World):
             results = {}
             overlap = [0, 0]
 
+            def proxy_client(i, j, r):
+                from Pyro5 import client as CL, errors as E
+                ctx.probe("proxy_client")
+                p = CL.Proxy("PYRO:echo@%s:%d" % (addr[0], addr[1]))
+                p._pyroSerializer = j["proxy"]
+                p._pyroTimeout = 30.0
+                try:
+                    try:
+                        p._pyroBind()
+                    except E.CommunicationError as x:
+                        r["t1"] = sched.now
+                        r["state"] = "refused"
+                        r["reason"] = "%s: %s" % (type(x).__name__, x)
+                        ctx.probe("proxy_client_refused")
+                        return
+                    except Exception as x:  # noqa
+                        # the connection attempt ended with something that is no communication error: whatever the daemon said is lost
+                        r["t1"] = sched.now
+                        r["state"] = "refused"
+                        r["reason"] = "[not a communication error] %s: %s" % (type(x).__name__, x)
+                        return
+                    r["t1"] = sched.now
+                    r["conn"] = p._pyroConnection.sock.conn
+                    r["state"] = "served"
+                    overlap[0] += 1
+                    overlap[1] = max(overlap[1], overlap[0])
+                    ok = 0
+                    for k in range(j["calls"]):
+                        if p.echo(i * 100 + k) == i * 100 + k:
+                            ok += 1
+                    r["ok"] = ok
+                    if j["dur"]:
+                        sched.sleep(j["dur"])
+                    overlap[0] -= 1
+                    p._pyroRelease()
+                    r["state"] = "served-done"
+                except Exception as x:  # noqa
+                    r["state"] = "error:%s:%s" % (type(x).__name__, x)
+
             def client(i, j):
                 r = results[i] = {"state": "start", "t0": sched.now}
+                if j.get("proxy"):
+                    return proxy_client(i, j, r)
                 try:
                     sk = net.connect_raw(addr, timeout=30.0)
                     r["conn"] = sk.conn
